@@ -379,8 +379,8 @@ theorem out_of_range_counterexample :
 Events are the outcomes of the blocking calls of `(*reader).run`: the backoff sleeps (done / context cancelled),
 `initialize` (failed — dial, readOffsets, or Seek out of range — or succeeded with the partition's first/last offsets),
 and one `read`: a fetch round (`data`), a connection lost after a prefix of a response (`cutAfter`), a partition error of
-any code (with what the follow-up `readOffsets` says for OffsetOutOfRange), another I/O error, context.Canceled,
-errUnknownCodec.  `Good` restricts the environment only as far as §1–§2 prove it: a `data` event is a round as
+any code (with what the follow-up `readOffsets` says for OffsetOutOfRange), another I/O error, context.Canceled
+after a prefix of the round's messages had been handed on, errUnknownCodec.  `Good` restricts the environment only as far as §1–§2 prove it: a `data` event is a round as
 `fetch_round` describes it, a `cutAfter` event delivers an initial segment of the log from the conn offset
 (`single_fetch` on the bytes that arrived), and a reported first offset is not above a record that still exists. -/
 
